@@ -140,7 +140,7 @@ def initState (cfg : Cfg) (tlsMode : String) (be : Backend) (plain : List Bytes)
 
 /-- `conv  CFG  BACKEND  INPUT` -/
 def probe (f : List String) : String :=
-  match f with
+  match f.take 4 with
   | [_, cfgS, beS, inS] =>
     let (cfg, tlsMode) := parseCfg cfgS
     let (plain, tls, e) := parseInput inS
@@ -205,12 +205,26 @@ def parseAnswer (a : List String) : List Ev × List DRec × List String :=
   | _ => ([], [], ["no answer"])
 
 /-- `mon PID conv CFG BACKEND INPUT ## events drecs wac` -/
+def parseExpect (s : String) : List (Nat × Bytes) :=
+  -- `EXPECT=k:hex;k:hex`
+  match s.splitOn "=" with
+  | ["EXPECT", v] => (v.splitOn ";").filterMap fun p =>
+      match p.splitOn ":" with
+      | [k, h] => some (natOf k, bytesOfHex h)
+      | _ => none
+  | _ => []
+
 def monitor (pid : String) (c a : List String) : String :=
-  match c with
-  | [_, cfgS, _beS, _inS] =>
+  match c.take 4 with
+  | [_, cfgS, beS, inS] =>
     let (cfg, tlsMode) := parseCfg cfgS
     let (evs, drecs, junk) := parseAnswer a
     let drecs := drecs.mergeSort (fun x y => x.k ≤ y.k)
+    let be := parseBackend beS
+    let (plain, tlsSegs, _) := parseInput inS
+    let input := plain.flatten ++ (tlsSegs.getD []).flatten
+    let expect := match c.drop 4 with | x :: _ => parseExpect x | [] => []
+    let tag := (c.drop 4).headD ""
     let bad : List String :=
       (if junk.isEmpty then [] else ["unexpected observation: " ++ String.intercalate "," (junk.take 3)]) ++
       (match pid with
@@ -219,8 +233,28 @@ def monitor (pid : String) (c a : List String) : String :=
        | "C08" => Spec.Mon.check8 evs
        | "C09" => Spec.Mon.check9 cfg evs
        | "C10" => Spec.Mon.check10 cfg (tlsMode == "implicit") evs
-       | "C12" => Spec.Mon.check12 cfg evs
-       | "C19" => Spec.Mon.check19 evs ++ Spec.Mon.check8 evs
+       | "C12" =>
+         Spec.Mon.check12 cfg evs ++
+         (if tag == "TAG=probe" then
+            -- lock-step probe conversation: replies after the greeting align with the input lines
+            let lines := (Spec.Mon.linesLF input [] []).filter (fun l => l.length > 2)
+            let replies := (evs.filterMap fun e => match e with
+              | .w bs => Spec.ReplySyntax.parse bs
+              | _ => none).flatten.drop 1
+            ((lines.zip replies).map fun (l, r) => Spec.Mon.probeExpect cfg (tlsMode == "implicit") l r).flatten
+          else [])
+       | "C19" => Spec.Mon.check19 cfg.maxLine (tag == "TAG=cmdonly") input evs ++ Spec.Mon.check8 evs
+       | "C13" => Spec.Mon.check13 cfg.lmtp cfg.lmtpSess be.data drecs evs
+       | "C05" => Spec.Mon.checkBait input evs ++ Spec.Mon.checkExpect expect drecs
+       | "C02" => Spec.Mon.checkBait input evs
+       | "C06" => Spec.Mon.checkBait input evs ++
+           (if cfg.maxMsg > 0 && drecs.any (fun d => d.octets.length > cfg.maxMsg) then
+              ["C06 the backend was handed more octets than the limit"] else []) ++
+           (if cfg.maxMsg > 0 && evs.any (fun e => match e with | .mail _ _ o _ => o.size > cfg.maxMsg | _ => false) then
+              ["C06 a MAIL declaring a SIZE above the limit reached the backend"] else []) ++
+           (if cfg.maxMsg > 0 && drecs.any (fun d => d.octets.length > cfg.maxMsg && d.rdEnd == .eof) then
+              ["C06 an over-size message was reported complete"] else [])
+       | "C07" => Spec.Mon.check7 cfg.lmtp drecs evs
        | _ => Spec.Mon.check8 evs ++ Spec.Mon.check3 cfg evs)
     if bad.isEmpty then "ok" else "bad: " ++ String.intercalate "; " bad
   | _ => "bad: unparsable case"
